@@ -7,6 +7,15 @@ EXPLANATION = 'header element encoders / length functions enforced against the C
 HP = ['src/drivers/ncmpio/ncmpio_header_put.c', 'src/drivers/common/ncx.m4']
 HG = ['src/drivers/ncmpio/ncmpio_header_get.c', 'src/drivers/common/ncx.m4']
 
+def begins_jobs(tier, prop, insts=None):
+    js = []
+    for nv, ha, ra in (insts or ([(3, 512, 4), (2, 4, 512), (3, 1, 1)] if tier == 'quick' else [(3, 512, 4), (2, 4, 512), (3, 1, 1), (3, 4096, 1024), (4, 512, 512), (1, 512, 4)])):
+        js.append(Job('%s/NC_begins/nvars%d_halign%d_ralign%d' % (prop, nv, ha, ra), prop, ['src/drivers/ncmpio/ncmpio_enddef.c', 'src/drivers/common/error_mpi2nc.c'], 'C03_begins.c',
+                      enforce='ncmpio_enddef.c:NC_begins', replace=['ncmpio_hdr_len_NC'], defines=['-DNVARS=%d' % nv, '-DH_ALIGN=%d' % ha, '-DR_ALIGN=%d' % ra], extra_src=['stubs/mpi_model.c'],
+                      canaries=(['evarsize', 'record_defined_before_fixed', 'single_record_var'] if nv > 1 else []), unwind=26, kind='bounded', timeout=600,
+                      bound='new file, %d variables of symbolic kind and length (< 2^32, multiple of 4), header alignment %d, record alignment %d' % (nv, ha, ra)))
+    return js
+
 def jobs(tier, ws, prop='C03'):
     js = []
     for ver in (1, 2, 5):
@@ -17,6 +26,7 @@ def jobs(tier, ws, prop='C03'):
                           unwind=6, kind='bounded', bound='format %d, ndims=%d, fixed name/attribute lengths; len, begin, xtype, dimids symbolic' % (ver, nd)))
     js.append(Job('%s/hdr_len_NC_var' % prop, prop, HG, 'C03_hdr_var.c', enforce='ncmpio_header_get.c:hdr_len_NC_var',
                   replace=['ncmpio_header_get.c:hdr_len_NC_attrarray'], defines=['-DH_len'], canaries=['positive'], unwind=4, kind='proof'))
+    js += begins_jobs(tier, prop)
     ED = ['src/drivers/ncmpio/ncmpio_enddef.c', 'src/drivers/common/error_mpi2nc.c']
     js.append(Job('%s/ncmpio__enddef' % prop, prop, ED, 'C03_enddef.c', enforce='ncmpio__enddef',
                   replace=['ncmpio_NC_check_vlens', 'ncmpio_enddef.c:NC_begins', 'ncmpio_NC_check_voffs', 'ncmpio_enddef.c:move_record_vars',
